@@ -77,6 +77,16 @@ def canon_exc(e):
             'cause_text': (str(cause)[:4000] if cause is not None else None)}
 
 
+def _fd_links():
+    out = {}
+    for n in os.listdir('/proc/self/fd'):
+        try:
+            out[n] = os.readlink('/proc/self/fd/' + n)
+        except OSError:
+            pass
+    return out
+
+
 def leak_snapshot():
     me = os.getpid()
     kids = []
@@ -99,7 +109,7 @@ def leak_snapshot():
     except ImportError:
         tl = None
     return {'children': kids, 'threads': sorted(t.name for t in threading.enumerate()), 'tqdm_lock': tl,
-            'n_fds': len(os.listdir('/proc/self/fd')),
+            'n_fds': len(os.listdir('/proc/self/fd')), 'fds': _fd_links(),
             'sigint': repr(signal.getsignal(signal.SIGINT))}
 
 
@@ -212,6 +222,8 @@ def run_call(pool, call, res):
         elif sig and sig.get('mode') == 'time':
             def later():
                 time.sleep(sig['delay'])
+                if out.get('call_over'):          # the call already returned: nothing to interrupt
+                    return
                 out['sigint_sent_at'] = time.time() - t0
                 if sig.get('group'):
                     os.killpg(os.getpgid(0), signal.SIGINT)
@@ -330,6 +342,8 @@ def run_call(pool, call, res):
             pool.terminate()
         elif kind == 'sleep':
             time.sleep(call['s'])
+        elif kind == 'touch':
+            open(call['path'], 'w').close()
         elif kind == 'kill_idle_worker':
             # SIGKILL worker w of an idle (kept-alive / apply) pool
             w = pool._workers[call['worker'] % len(pool._workers)]
@@ -338,8 +352,10 @@ def run_call(pool, call, res):
             time.sleep(call.get('settle', 0.5))
         else:
             raise ValueError('unknown call kind ' + kind)
+        out['call_over'] = True
         out['outcome'] = 'ok'
     except BaseException as e:      # noqa: the outcome of the call IS the datum
+        out['call_over'] = True
         if inj is not None:
             inj.__exit__()
         if sig:
@@ -400,8 +416,14 @@ def main():
     import userfuncs     # noqa
     warm = scen.get('warmup')
     if warm:
-        with WorkerPool(2, start_method=scen['pool'].get('start_method', 'fork')) as p:
-            p.map(userfuncs.task, range(4))
+        methods = warm if isinstance(warm, list) else [scen['pool'].get('start_method', 'fork')]
+        for m in methods:
+            with WorkerPool(2, start_method=m, enable_insights=bool(scen.get('warm_insights'))) as p:
+                p.map(userfuncs.task, range(4), progress_bar=bool(scen.get('warm_progress_bar')))
+            p = None
+        import gc
+        gc.collect()
+        time.sleep(0.2)
         res['baseline'] = leak_snapshot()
     if scen.get('shapes'):
         # which exception shapes can be transported by which pickler (decided without mpire)
@@ -428,6 +450,33 @@ def main():
             row['dict_keys'] = sorted(e.__dict__)
             tr[name] = row
         res['transport'] = tr
+    if 'cycles' in scen:
+        # C05: several pools one after the other in THIS process, each left in a different way
+        import gc
+        res['cycles'] = []
+        for ci, cyc in enumerate(scen['cycles']):
+            rec = {'cause': cyc.get('cause'), 'calls': []}
+            sub = {'calls': rec['calls']}
+            try:
+                pool = WorkerPool(**cyc['pool'])
+                with pool:
+                    for call in cyc['calls']:
+                        run_call(pool, call, sub)
+                    rec['inside'] = leak_snapshot()
+            except BaseException as e:      # noqa
+                rec['pool_exc'] = canon_exc(e)
+            time.sleep(cyc.get('settle', 0.15))
+            rec['after_exit'] = leak_snapshot()
+            pool = None
+            gc.collect()
+            time.sleep(0.1)
+            rec['after_release'] = leak_snapshot()
+            res['cycles'].append(rec)
+            flush()
+        res['status'] = 'done'
+        flush()
+        faulthandler.cancel_dump_traceback_later()
+        return
     pool_kw = dict(scen['pool'])
     try:
         pool = WorkerPool(**pool_kw)
